@@ -1,5 +1,5 @@
 From Coq Require Import Extraction ExtrOcamlBasic.
-From L60870 Require Import Link.Ft12 Link.LinkSec Link.LinkPrim Link.Cs101Queue.
+From L60870 Require Import Link.Ft12 Link.LinkSec Link.LinkPrim Link.Cs101Queue Link.LinkSecQ.
 Extraction "model_link.ml" enc_fixed enc_var read_next parse_su parse_bp user_data
   su_init su_run su_with_q bal_init bal_run bal_with pb_with_test pu_init pu_run pu_send_confirmed pu_send_broadcast pu_request pu_test
-  cq_init cq_enqueue cq_dequeue cq_is_full cq_is_empty cq_flush cq_abs fifo_enqueue.
+  cq_init cq_enqueue cq_dequeue cq_is_full cq_is_empty cq_flush cq_abs fifo_enqueue su_run_r.
